@@ -133,14 +133,33 @@ pub fn gen_float(rng: &mut Rng, allow_neg: bool) -> u64 {
     x.to_bits()
 }
 
+/// a string the text format can carry in a chrom / name column: from the pool, or 1-6 characters drawn
+/// from all printable ASCII (punctuation, digits, space at either end) plus a few non-ASCII and
+/// white-space-like code points; never TAB, CR or LF
+pub fn gen_text(rng: &mut Rng, pool: &[&str]) -> String {
+    if rng.chance(1, 2) { return rng.pick(pool).to_string(); }
+    const EXTRA: &[char] = &['\u{b}', '\u{c}', '\u{a0}', '\u{85}', '\u{2028}', 'é', '名', '\u{1f9ec}'];
+    let n = rng.range(1, 6);
+    let mut t = String::new();
+    for _ in 0..n {
+        let c = match rng.below(8) {
+            0 => *rng.pick(EXTRA),
+            1 => *rng.pick(&[',', ';', ' ', '#', '"', '\'', '\\', '/', '|', '=', '%', '+', '.', '0', '-', ':']),
+            _ => char::from(0x20u8 + rng.below(0x5f) as u8),
+        };
+        t.push(c);
+    }
+    t
+}
+
 /// a record the text format of `ty` can carry (the quantifier of C03)
 pub fn gen_wf(rng: &mut Rng, ty: Ty) -> TRec {
-    let mut chrom = rng.pick(CHROMN).to_string();
+    let mut chrom = gen_text(rng, CHROMN);
     if ty == Ty::Gr { chrom = chrom.replace(['-', ':'], "_"); }
     let coord = |rng: &mut Rng| match rng.below(6) { 0 => 0, 1 => u64::MAX, 2 => rng.next(), _ => rng.below(1_000_000) };
     let mut x = TRec { chrom, start: coord(rng), end: coord(rng), ..Default::default() };
     let n = match ty { Ty::Bed(n) => n, Ty::NarrowPeak | Ty::BroadPeak => 6, _ => 3 };
-    if n > 3 && rng.chance(2, 3) { let nm = rng.pick(NAMES).to_string(); x.name = Some(if nm == "." { "..".into() } else { nm }); }
+    if n > 3 && rng.chance(2, 3) { let nm = gen_text(rng, NAMES); x.name = Some(if nm == "." { "..".into() } else { nm }); }
     if n > 4 && rng.chance(2, 3) { x.score = Some(match rng.below(4) { 0 => 0, 1 => 1000, _ => rng.below(1001) as u16 }); }
     if n > 5 && rng.chance(2, 3) { x.strand = Some(1 + rng.below(2) as u8); }
     match ty {
